@@ -9,6 +9,7 @@ from ..env import lomond, levents
 from ..ref import ws as refws
 
 LEVEL = 'exploration'
+TECHNIQUE = 'runtime monitoring of persist() with scripted outcome sequences, recorded random source and recorded waits'
 BUDGET_S = {'quick': 25, 'thorough': 150}
 REQUIRED = {'all': ['oracle.backoffs_checked', 'oracle.attempts', 'oracle.exit_runs', 'oracle.resets_after_ready',
                     'oracle.sim_passthrough_runs', 'oracle.kwargs_checked']}
